@@ -7,7 +7,10 @@ use crate::{
         },
         format::format_time_part,
         offset::{add_offset_to_nanos, remove_offset_from_nanos},
-        parse::{parse_format_string, parse_time_part, ParseUnit, ParsedTime, Period},
+        parse::{
+            parse_format_string, parse_time_part, remove_escaped_part, ParseUnit, ParsedTime,
+            Period,
+        },
         time::{
             convert::{
                 days_nanos_to_hours, days_nanos_to_micros, days_nanos_to_millis,
@@ -202,15 +205,9 @@ impl Time {
         let mut string = string.to_string();
 
         for part in parts {
-            // Escaped apostrophes
-            if part.starts_with('\u{0000}') {
-                string.replace_range(0..part.len(), "");
-                continue;
-            }
-
-            // Escaped parts
-            if part.starts_with('\'') {
-                string.replace_range(0..part.len() - if part.ends_with('\'') { 2 } else { 1 }, "");
+            // Escaped apostrophes and escaped parts
+            if part.starts_with('\u{0000}') || part.starts_with('\'') {
+                remove_escaped_part(&part, &mut string)?;
                 continue;
             }
 
